@@ -139,14 +139,29 @@ class Interp:
     def _solver(self):
         if self.solver is None:
             self.solver = z3.Solver(); self.solver.set('timeout', self.qtimeout)
-            self._ngen = 0; self._nden = 0; self._npc = 0
+            self._ngen = 0; self._nax = 0; self._nden = 0; self._npc = 0
         s = self.solver
         # lazily add new path-condition conjuncts, generator definitions and non-zero denominators
         while self._npc < len(self.pc): s.add(self.pc[self._npc]); self._npc += 1
-        gc = R.gen_constraints()
-        while self._ngen < len(gc): s.add(gc[self._ngen]); self._ngen += 1
+        # generator definitions, axioms and non-zero denominators are growing lists: each has its own cursor; pooled models that do not
+        # satisfy a newly added constraint (they predate the symbol and complete it with 0) are dropped
+        added = []
+        gl = list(R.ST.gens.values())
+        while self._ngen < len(gl):
+            v, P = gl[self._ngen]; added.append(z3.And(v * v == P, v >= 0)); self._ngen += 1
+        ax = R.ST.axioms
+        while self._nax < len(ax): added.append(ax[self._nax]); self._nax += 1
         dc = R.ST.denoms
-        while self._nden < len(dc): s.add(dc[self._nden] != 0); self._nden += 1
+        while self._nden < len(dc): added.append(dc[self._nden] != 0); self._nden += 1
+        for c in added:
+            s.add(c)
+            if self.models:
+                keep = []
+                for m in self.models:
+                    try:
+                        if z3.is_true(m.eval(c, model_completion=True)): keep.append(m)
+                    except z3.Z3Exception: pass
+                self.models = keep
         return s
     def all_constraints(self):
         return list(self.pc) + R.gen_constraints() + R.denom_constraints()
@@ -175,6 +190,7 @@ class Interp:
             if len(self.models) > 6: self.models.pop(0)
         return r
     def _model_says(self, cond):
+        if self.models: self._solver()      # brings the pool up to date with constraints that came with new symbols
         for m in self.models:
             try:
                 if z3.is_true(m.eval(cond, model_completion=True)): return True
